@@ -802,6 +802,13 @@ Proof.
   - exists f. auto.
 Qed.
 
+(* advertisementsAreCompatible is symmetric: the verdict of validateBGPAdvPerPool on a pair does
+   not depend on which of the two advertisements was attached first *)
+Lemma compatible_sym a b p : compatible a b p = compatible b a p.
+Proof.
+  apply Bool.eq_true_iff_eq. rewrite !compatible_spec. split; intros H C; apply H, collide_sym, C.
+Qed.
+
 (* two advertisements attached to one accepted pool with different local preferences never
    collide (i.e. a colliding pair is rejected) *)
 Theorem localpref_no_collision iter r out p : pools_for iter r = Some out -> In p (po_pools out) ->
